@@ -162,6 +162,7 @@ type rcase struct {
 	id                       string
 	kind                     string // R | S
 	cs, gc, to, slots, did   uint64
+	par                      bool // the streams (one per snapshot key) are fed by concurrent goroutines
 	steady                   bool // a single in-order stream with gaps below the timeout: it must finalise
 	files                    []fileDef
 	streams                  []streamDef
@@ -275,6 +276,9 @@ func (c *rcase) String() string {
 	if c.steady {
 		b.WriteString(" steady=1")
 	}
+	if c.par {
+		b.WriteString(" par=1")
+	}
 	for i, f := range c.files {
 		if c.kind == "S" {
 			fmt.Fprintf(&b, " F%d=%s@%s", i, hexs(f.path), f.desc)
@@ -324,6 +328,8 @@ func parseCase(line string) *rcase {
 			c.did = u64(v)
 		case k == "steady":
 			c.steady = v == "1"
+		case k == "par":
+			c.par = v == "1"
 		case k[0] == 'F':
 			fd := fileDef{}
 			if j := strings.IndexByte(v, '@'); j >= 0 {
